@@ -500,7 +500,18 @@ func c08R1(c *Ctx) {
 			case *ssa.Const:
 				ob.Check(v.IsNil(), "returns nil", "unexpected constant")
 			default:
-				ob.Fail("scalar copy returns a non-basic value (%T)", v)
+				// the payload handed back through the wrapper's own value accessor (`return ego.getVal()`): what the accessor returns is
+				// the payload (C12), a value of basic type or nil
+				st, _ := w.Underlying().(*types.Struct)
+				basic := st != nil && st.NumFields() == 0
+				if st != nil && st.NumFields() == 1 {
+					_, basic = st.Field(0).Type().Underlying().(*types.Basic)
+				}
+				if why := c.scalarCopyIsPayload(name); why == "" && basic {
+					ob.Ok("returns the stored payload through the wrapper's own value accessor (a value of basic type, copied by value)")
+				} else {
+					ob.Fail("scalar copy returns a non-basic value (%T) %s", v, why)
+				}
 			}
 		}
 	}
